@@ -50,12 +50,14 @@ def profile(e4: bool = False) -> Dict:
 def _records() -> Tuple[Dict, Dict, List[Dict]]:
     from pactisim import records  # noqa: WPS433
 
-    st, res = runner.run_isolated(lambda _x: (records.enumerate_records(), records.enumerate_torn()), None, 900)
+    st, res = runner.run_isolated(lambda _x: (records.enumerate_records(), records.enumerate_torn(), records.enumerate_oddities()), None, 900)
     if st != "ok":
         raise HarnessError("record enumeration failed: %s %s" % (st, str(res)[-3000:]))
-    rec, torn = res
+    rec, torn, odd = res
+    torn["oddities"] = {"cases": odd["cases"], "outcomes": odd["outcomes"]}
+    torn["cases"] += odd["cases"]
     failures = []
-    for f in rec["failures"] + torn["failures"]:
+    for f in rec["failures"] + torn["failures"] + odd["failures"]:
         f = dict(f)
         f["property"] = PROP
         f["oracle"] = "E3"
@@ -193,7 +195,8 @@ def run(tier: str, runs_override: Optional[int] = None, only: Optional[str] = No
         samples.extend(rec["samples"][:2])
         cov["E3_records"] = {"corruptions": rec["cases"], "checks_by_verdict": rec["by_verdict"], "exhaustive": True,
                              "distinct_failure_keys": nkeys, "failure_keys": sorted({f["key"] for f in failures})[:200],
-                             "torn_and_missing_file_cases": torn["cases"], "torn_reader_outcomes": torn["how"]}
+                             "torn_missing_and_odd_file_cases": torn["cases"], "torn_reader_outcomes": torn["how"],
+                             "well_kinded_but_odd_records": torn.get("oddities")}
 
     # ---------------- E1 / E1b / E2 over sessions
     if "sessions" in parts:
